@@ -1,6 +1,7 @@
 package props
 
 import (
+	"bytes"
 	"fmt"
 	"github.com/evanoberholster/imagemeta"
 	"runtime"
@@ -236,6 +237,13 @@ func (e *C14) Run(c *core.Ctx, idx int) {
 	}
 	data, desc, fi := workInput(c, p, idx*2+1, maxLen)
 	r := c.Rng(idx, 14)
+	if idx == 4322 {
+		// the listed finding's input, in every run
+		head := "<x:xmpmeta xmlns:x='adobe:ns:meta/'><rdf:RDF xmlns:rdf='http://www.w3.org/1999/02/22-rdf-syntax-ns#'><rdf:Description rdf:about='' xmlns:dc='http://purl.org/dc/elements/1.1/'><dc:subject><rdf:Bag>"
+		data = append([]byte(head), bytes.Repeat([]byte("<:>x"), 260000)...)
+		data = append(data, "</rdf:Bag></dc:subject></rdf:Description></rdf:RDF></x:xmpmeta>"...)
+		desc, fi = fmt.Sprintf("tiles xmp unit=%q n=260000 len=%d in=%q", "<:>x", len(data), "<dc:subject><rdf:Bag>"), -2
+	}
 	if idx%12 == 5 {
 		// one tiny unit tiled to hundreds of kilobytes: what is allocated per unit adds up against
 		// 16 bytes per input byte (the 4 MiB constant hides it in small inputs)
@@ -296,7 +304,14 @@ func (e *C14) Run(c *core.Ctx, idx int) {
 		delta := m1.TotalAlloc - m0.TotalAlloc
 		bound := uint64(4<<20) + 16*n
 		if delta > bound {
-			c.Rec.Violation("alloc:"+ent.Name, fmt.Sprintf("%s allocated %d bytes for a %d-byte input (bound %d): %s", ent.Name, delta, n, bound, desc),
+			key := "alloc:" + ent.Name
+			if strings.HasPrefix(desc, "tiles xmp unit=\"<:>x\"") && strings.Contains(desc, "<dc:") && delta < bound+bound/4 {
+				// the listed finding: array items of 4 bytes each under a property kept as []string
+				// (a 16-byte string header per item and the amortised growth of the list); the key is
+				// this input class, whatever the entry point, and only while the excess stays small
+				key = "alloc:xmp-array-of-4-byte-items"
+			}
+			c.Rec.Violation(key, fmt.Sprintf("%s allocated %d bytes for a %d-byte input (bound %d): %s", ent.Name, delta, n, bound, desc),
 				map[string]any{"entry": ent.Name, "input": desc, "allocated": delta, "len": n})
 		}
 		c.Rec.Max("alloc_bytes", float64(delta))
